@@ -24,7 +24,8 @@ func suiteSvc(tier string, r *rng) func(emit func(pureCase)) {
 		maxLen = 6
 		nRand = 600
 	}
-	alpha := []string{"start", "stop", "closed", "conn", "http"}
+	base := []string{"start", "stop", "closed", "conn", "http"}
+	alpha := append(append([]string{}, base...), "stopc", "stoph")
 	return func(emit func(pureCase)) {
 		var one func(word []string)
 		oneR := func(word []string, race bool) {
@@ -45,6 +46,58 @@ func suiteSvc(tier string, r *rng) func(emit func(pureCase)) {
 			var outs []string
 			specErr := ""
 			var stopCh <-chan error
+			doConn := func() {
+				d := wstest.NewDialer(serv.GetWSHandlerFunc())
+				// a refused upgrade returns from the handler without writing; the in-memory
+				// dialer then waits for a response that never comes: bound the wait
+				ctx, cancel := context.WithTimeout(context.Background(), 150*time.Millisecond)
+				ws, _, err := d.DialContext(ctx, "ws://example.org/", http.Header{})
+				cancel()
+				if err != nil {
+					outs = append(outs, "refused")
+					return
+				}
+				c := &cl{ws: ws, done: make(chan struct{})}
+				go func() {
+					for {
+						if _, _, err := ws.ReadMessage(); err != nil {
+							break
+						}
+					}
+					close(c.done)
+				}()
+				clients = append(clients, c)
+				outs = append(outs, "connected")
+			}
+			doHTTP := func() {
+				rec := httptest.NewRecorder()
+				req := httptest.NewRequest("GET", "http://example.org/api/m/a", nil)
+				done := make(chan struct{})
+				go func() { serv.ServeHTTP(rec, req); close(done) }()
+				deadline := time.Now().Add(3 * time.Second)
+			wait:
+				for time.Now().Before(deadline) {
+					select {
+					case <-done:
+						break wait
+					default:
+					}
+					for _, rq := range m.outstanding() {
+						if strings.HasPrefix(rq.subject, "access.") {
+							m.take(rq.id)
+							rq.cb(rq.subject, []byte(errJSON(reserr.CodeAccessDenied)), nil)
+						}
+					}
+					time.Sleep(50 * time.Microsecond)
+				}
+				select {
+				case <-done:
+					outs = append(outs, fmt.Sprint(rec.Code))
+				default:
+					outs = append(outs, "http-hang")
+					specErr = "HTTP request neither served nor refused"
+				}
+			}
 			for _, op := range word {
 				switch op {
 				case "start":
@@ -57,11 +110,38 @@ func suiteSvc(tier string, r *rng) func(emit func(pureCase)) {
 						outs = append(outs, "started")
 						stopCh = serv.StopChannel()
 					}
-				case "stop", "closed":
+				case "stop", "closed", "stopc", "stoph":
 					running := serv.StopChannel() != nil
 					var cause error
 					t0 := time.Now()
-					if op == "stop" {
+					if op == "stopc" || op == "stoph" {
+						// hold Stop between closing the sockets and finishing: whatever arrives
+						// in that window must be refused
+						attempt := doConn
+						if op == "stoph" {
+							attempt = doHTTP
+						}
+						if !running {
+							serv.Stop(nil)
+							attempt()
+						} else {
+							m.closeGate = make(chan struct{})
+							m.closeEntered = make(chan struct{}, 1)
+							stopped := make(chan struct{})
+							go func() { serv.Stop(nil); close(stopped) }()
+							select {
+							case <-m.closeEntered:
+								attempt()
+							case <-stopped:
+								specErr = "Stop did not close the messaging client"
+							case <-time.After(12 * time.Second):
+								specErr = "Stop did not reach the messaging client within its bounded timeouts"
+							}
+							close(m.closeGate)
+							<-stopped
+							m.closeGate = nil
+						}
+					} else if op == "stop" {
 						serv.Stop(nil)
 					} else if m.closedH != nil {
 						cause = fmt.Errorf("lost")
@@ -112,60 +192,14 @@ func suiteSvc(tier string, r *rng) func(emit func(pureCase)) {
 					}
 					outs = append(outs, fmt.Sprintf("stopped:%s:closed=%d", want, closed))
 				case "conn":
-					d := wstest.NewDialer(serv.GetWSHandlerFunc())
-					// a refused upgrade returns from the handler without writing; the in-memory
-					// dialer then waits for a response that never comes: bound the wait
-					ctx, cancel := context.WithTimeout(context.Background(), 150*time.Millisecond)
-					ws, _, err := d.DialContext(ctx, "ws://example.org/", http.Header{})
-					cancel()
-					if err != nil {
-						outs = append(outs, "refused")
-						break
-					}
-					c := &cl{ws: ws, done: make(chan struct{})}
-					go func() {
-						for {
-							if _, _, err := ws.ReadMessage(); err != nil {
-								break
-							}
-						}
-						close(c.done)
-					}()
-					clients = append(clients, c)
-					outs = append(outs, "connected")
+					doConn()
 					if !race {
 						// let the server side finish the upgrade (it registers the socket after
 						// the client has seen the response); the race itself is case "connrace"
 						time.Sleep(3 * time.Millisecond)
 					}
 				case "http":
-					rec := httptest.NewRecorder()
-					req := httptest.NewRequest("GET", "http://example.org/api/m/a", nil)
-					done := make(chan struct{})
-					go func() { serv.ServeHTTP(rec, req); close(done) }()
-					deadline := time.Now().Add(3 * time.Second)
-				wait:
-					for time.Now().Before(deadline) {
-						select {
-						case <-done:
-							break wait
-						default:
-						}
-						for _, rq := range m.outstanding() {
-							if strings.HasPrefix(rq.subject, "access.") {
-								m.take(rq.id)
-								rq.cb(rq.subject, []byte(errJSON(reserr.CodeAccessDenied)), nil)
-							}
-						}
-						time.Sleep(50 * time.Microsecond)
-					}
-					select {
-					case <-done:
-						outs = append(outs, fmt.Sprint(rec.Code))
-					default:
-						outs = append(outs, "http-hang")
-						specErr = "HTTP request neither served nor refused"
-					}
+					doHTTP()
 				}
 			}
 			serv.Stop(nil)
@@ -177,6 +211,10 @@ func suiteSvc(tier string, r *rng) func(emit func(pureCase)) {
 				class: fmt.Sprintf("len=%d race=%v", len(word), race), trivial: len(word) < 2})
 		}
 		one = func(word []string) { oneR(word, false) }
+		// Start/Stop repeated: a restarted service must not serve what the previous run cached
+		for _, how := range []string{"stop", "closed"} {
+			emit(restartCase(how))
+		}
 		// Stop racing the end of an upgrade (known finding D20)
 		oneR([]string{"start", "conn", "stop"}, true)
 		var rec func(cur []string, n int)
@@ -187,7 +225,7 @@ func suiteSvc(tier string, r *rng) func(emit func(pureCase)) {
 			if n == 0 {
 				return
 			}
-			for _, a := range alpha {
+			for _, a := range base {
 				// prune: keep words short but meaningful (always begin with start or a refused op)
 				rec(append(cur, a), n-1)
 			}
@@ -196,6 +234,16 @@ func suiteSvc(tier string, r *rng) func(emit func(pureCase)) {
 			rec(nil, 4)
 		} else {
 			rec(nil, 3)
+		}
+		// requests arriving while Stop is between its two locked sections
+		for _, pre := range [][]string{{}, {"conn"}, {"conn", "conn"}, {"http"}} {
+			for _, sx := range []string{"stopc", "stoph"} {
+				for _, tail := range [][]string{{}, {"conn"}, {"http"}, {"start"}, {"start", "conn"}} {
+					w := append([]string{"start"}, pre...)
+					w = append(w, sx)
+					one(append(w, tail...))
+				}
+			}
 		}
 		for i := 0; i < nRand; i++ {
 			n := 2 + r.intn(maxLen+3)
@@ -209,4 +257,103 @@ func suiteSvc(tier string, r *rng) func(emit func(pureCase)) {
 			one(w)
 		}
 	}
+}
+
+// restartCase: a client loads a resource, the service stops (Stop or connection loss) and is
+// started again; a client of the second run must be served from the services (get request, event
+// subscription on the new messaging connection), not from the cache of the first run.
+func restartCase(how string) pureCase {
+	pc := pureCase{line: "svc-restart " + how, noModel: true, class: "restart"}
+	m := newMockMQ()
+	cfg := server.Config{NoHTTP: true}
+	cfg.SetDefault()
+	serv, err := server.NewService(m, cfg)
+	if err != nil {
+		pc.specErr = err.Error()
+		return pc
+	}
+	serv.SetLogger(&memLogger{})
+	rev := 1
+	subscribeOnce := func() (string, []string) {
+		d := wstest.NewDialer(serv.GetWSHandlerFunc())
+		ctx, cancel := context.WithTimeout(context.Background(), time.Second)
+		ws, _, err := d.DialContext(ctx, "ws://example.org/", http.Header{})
+		cancel()
+		if err != nil {
+			return "connect-refused", nil
+		}
+		frames := make(chan string, 16)
+		go func() {
+			for {
+				_, b, err := ws.ReadMessage()
+				if err != nil {
+					close(frames)
+					return
+				}
+				frames <- string(b)
+			}
+		}()
+		m.drainLog()
+		ws.WriteMessage(websocket.TextMessage, []byte(`{"id":1,"method":"subscribe.m.a"}`))
+		var seen []string
+		deadline := time.Now().Add(3 * time.Second)
+		for time.Now().Before(deadline) {
+			for _, l := range m.drainLog() {
+				seen = append(seen, l.kind+" "+l.subject)
+			}
+			for _, rq := range m.outstanding() {
+				m.take(rq.id)
+				switch {
+				case strings.HasPrefix(rq.subject, "access."):
+					go rq.cb(rq.subject, []byte(`{"result":{"get":true}}`), nil)
+				case strings.HasPrefix(rq.subject, "get."):
+					go rq.cb(rq.subject, []byte(fmt.Sprintf(`{"result":{"model":{"rev":%d}}}`, rev)), nil)
+				}
+			}
+			select {
+			case f, ok := <-frames:
+				if !ok {
+					return "socket-closed", seen
+				}
+				if strings.Contains(f, `"id":1`) {
+					return f, seen
+				}
+			case <-time.After(200 * time.Microsecond):
+			}
+		}
+		return "no-response", seen
+	}
+	if err := serv.Start(); err != nil {
+		pc.specErr = err.Error()
+		return pc
+	}
+	first, _ := subscribeOnce()
+	if how == "stop" {
+		serv.Stop(nil)
+	} else if m.closedH != nil {
+		m.closedH(fmt.Errorf("lost"))
+	}
+	rev = 2
+	if err := serv.Start(); err != nil {
+		pc.impl = "restart-refused"
+		pc.specErr = "Start after Stop failed: " + err.Error()
+		return pc
+	}
+	second, seen := subscribeOnce()
+	serv.Stop(nil)
+	has := func(x string) bool {
+		for _, s := range seen {
+			if s == x {
+				return true
+			}
+		}
+		return false
+	}
+	pc.impl = fmt.Sprintf("first=%v second=%v get=%v sub=%v", strings.Contains(first, `"rev":1`), strings.Contains(second, `"rev":2`), has("req get.m.a"), has("sub event.m.a"))
+	if !strings.Contains(first, `"rev":1`) {
+		pc.specErr = "first run did not serve the resource: " + first
+	} else if !has("req get.m.a") || !has("sub event.m.a") || !strings.Contains(second, `"rev":2`) {
+		pc.specErr = "after Stop and Start the gateway served the resource from the cache of the previous run (" + pc.impl + "; response " + second + ")"
+	}
+	return pc
 }
